@@ -483,6 +483,90 @@ fn add_tiny_bursts(trace: &mut Trace, rng: &mut Rng, stats: &mut GenStats) {
     }
 }
 
+/// One exporter with a very large template fleet (a core router's per-VRF / per-sampler
+/// templates, a capture file of a whole site, or an attacker): 1 100 - 2 100 distinct template
+/// ids announced in multi-record template sets, either as a chain of full-size messages in one
+/// buffer or message by message. Nothing may be evicted, capped, forgotten or start to spin
+/// afterwards. Drawn from a PRNG of its own (derived from the run's seed only), so the rest of
+/// the trace is what it was before this delivery kind existed.
+fn add_template_fleet(trace: &mut Trace, run_seed: u64, stats: &mut GenStats) {
+    let mut rng = Rng::new(run_seed ^ 0x7e3a_f1ee_7f1e_e700);
+    if trace.parsers.is_empty() || !rng.chance(1, 50) {
+        return;
+    }
+    let p = rng.usize_below(trace.parsers.len());
+    let mut at = rng.usize_below(trace.events.len() / 2 + 1);
+    let t = time_at(trace, at);
+    let ipfix = rng.chance(3, 4);
+    let total = *rng.pick(&[1100usize, 1300, 1600, 2100]);
+    let per_set = *rng.pick(&[1usize, 2, 7, 60, 400]);
+    let msg_cap = *rng.pick(&[1400usize, 8000, 60000]);
+    let one_buffer = rng.chance(1, 2);
+    const FIELDS: [(u16, u16); 7] = [(1, 4), (2, 4), (4, 1), (7, 2), (8, 4), (11, 2), (12, 4)];
+    let mut msgs: Vec<Vec<u8>> = Vec::new();
+    let mut sets: Vec<Vec<u8>> = Vec::new();
+    let mut size = 0usize;
+    let mut body: Vec<u8> = Vec::new();
+    let mut in_set = 0usize;
+    let flush_msg = |sets: &mut Vec<Vec<u8>>, msgs: &mut Vec<Vec<u8>>, rng: &mut Rng| {
+        if sets.is_empty() {
+            return;
+        }
+        let pk = if ipfix {
+            crate::wire::ipfix_packet(rng.next_u64() as u32, rng.next_u64() as u32, 7, sets)
+        } else {
+            crate::wire::v9_packet(sets.len() as u16, rng.next_u64() as u32, rng.next_u64() as u32, rng.next_u64() as u32, 7, sets)
+        };
+        msgs.push(pk);
+        sets.clear();
+    };
+    for i in 0..total {
+        let id = 256 + i as u16;
+        let (typ, len) = *rng.pick(&FIELDS);
+        crate::wire::be16(&mut body, id);
+        crate::wire::be16(&mut body, 1);
+        crate::wire::be16(&mut body, typ);
+        crate::wire::be16(&mut body, len);
+        in_set += 1;
+        if in_set == per_set || i + 1 == total {
+            let st = crate::wire::set(if ipfix { 2 } else { 0 }, &body, 0);
+            size += st.len();
+            sets.push(st);
+            body.clear();
+            in_set = 0;
+            if size + 4 + 8 * per_set > msg_cap - 20 || i + 1 == total {
+                flush_msg(&mut sets, &mut msgs, &mut rng);
+                size = 0;
+            }
+        }
+    }
+    let n_msgs = msgs.len();
+    if one_buffer {
+        // a reassembled stream / capture file: chunks of up to ~120 KB
+        let mut buf = Vec::new();
+        let mut parts = Vec::new();
+        for m in msgs {
+            parts.push(m.len());
+            buf.extend(m);
+            if buf.len() > 120_000 {
+                trace.events.insert(at.min(trace.events.len()), Ev::Deliver { t, p, buf: std::mem::take(&mut buf), parts: std::mem::take(&mut parts), cut: None, faults: vec!["template_fleet".into()] });
+                at += 1;
+            }
+        }
+        if !buf.is_empty() {
+            trace.events.insert(at.min(trace.events.len()), Ev::Deliver { t, p, buf, parts, cut: None, faults: vec!["template_fleet".into()] });
+        }
+    } else {
+        for m in msgs {
+            let parts = vec![m.len()];
+            trace.events.insert(at.min(trace.events.len()), Ev::Deliver { t, p, buf: m, parts, cut: None, faults: vec!["template_fleet".into()] });
+            at += 1;
+        }
+    }
+    *stats.fired.entry("template_fleet").or_insert(0) += 1;
+    *stats.fired.entry("template_fleet_messages").or_insert(0) += n_msgs as u64;
+}
+
 /// A buffer beyond the datagram limit (a capture file, a stream reassembled by the caller):
 /// one V5/V7 packet whose record block alone exceeds 64 KiB, or a long chain; sometimes behind
 /// a packet that cannot be decoded, so that the final error carries more than 64 KiB.
@@ -555,6 +639,7 @@ pub fn gen_trace(prop: &str, run_seed: u64) -> (Trace, GenStats) {
     match prop {
         "C14" => {
             add_truncations(&mut trace, &mut rng, &mut stats);
+            add_template_fleet(&mut trace, run_seed, &mut stats);
             add_tiny_bursts(&mut trace, &mut rng, &mut stats);
             add_jumbo(&mut trace, &mut rng, &mut stats, true);
         }
@@ -566,6 +651,7 @@ pub fn gen_trace(prop: &str, run_seed: u64) -> (Trace, GenStats) {
             add_cache_resets(&mut trace, &mut rng, &mut stats);
             if prop == "C06" {
                 add_tiny_bursts(&mut trace, &mut rng, &mut stats);
+                add_template_fleet(&mut trace, run_seed, &mut stats);
             }
         }
         "C01" => {
